@@ -29,13 +29,26 @@
 (*               map (the pre-fix templater_text.go)                       *)
 (*   AbortOnBad  a failed step stops the instance (neighbours are lost)    *)
 (*   DropMd      the gun forgets one metadata key                          *)
+(*   SharedDialsReflect  the shared client pool is dialled at the          *)
+(*               reflection address (matters when reflection is served on  *)
+(*               another port by another server)                           *)
+(*   ScenarioDeadline    one deadline for the whole scenario instead of    *)
+(*               one per call: think time between steps eats the budget    *)
+(*                                                                         *)
+(* Run configuration rcfg = [shared, refl, T]: shared-client on/off,       *)
+(* reflection served by a SEPARATE server (reflect_port), per-call timeout *)
+(* T in abstract ticks (0 = none).  conn[g] is where gun g's calls go:     *)
+(* always the target -- the reflection endpoint is for reflection only.    *)
+(* "within the configured timeout" is per call: clk[g] is the time charged *)
+(* against the deadline of the call in progress; a step's sleep (think     *)
+(* time after the call) is not charged.                                    *)
 (***************************************************************************)
 EXTENDS Integers, Sequences, FiniteSets, TLC
 
 CONSTANTS MaxGuns,      \* gun identities 1..MaxGuns (one warm-up gun + one per instance)
           MaxShots,     \* bound on scenario shots per run (design level only)
           KeepLog,      \* keep the log of received calls (design level); the trace spec checks on the fly
-          InPlace, AbortOnBad, DropMd
+          InPlace, AbortOnBad, DropMd, SharedDialsReflect, ScenarioDeadline
 
 VARIABLES kind,     \* "json" | "scn"
           file,     \* sequence of entries [name, steps]
@@ -49,9 +62,13 @@ VARIABLES kind,     \* "json" | "scn"
           cache,    \* gun -> <<def, key>> -> "none" | what the gun's templater parsed
           nx,       \* tokens drawn so far
           recvlog,  \* set of [idx, step, rec] (KeepLog)
-          nsample   \* entry index -> [ok, fail] samples reported
+          nsample,  \* entry index -> [ok, fail] samples reported
+          rcfg,     \* [shared, refl, T]
+          conn,     \* gun -> "none" | "target" | "reflect": the server its stub is connected to
+          clk       \* gun -> time charged against the deadline in force
 
-vars == <<kind, file, ninst, gst, sh, started, done, stopped, shared, cache, nx, recvlog, nsample>>
+xvars == <<rcfg, conn, clk>>
+vars == <<kind, file, ninst, gst, sh, started, done, stopped, shared, cache, nx, recvlog, nsample, xvars>>
 
 Guns == 1..MaxGuns
 Rng(s) == {s[i] : i \in DOMAIN s}
@@ -85,7 +102,11 @@ AllSteps(f) == UNION {Rng(f[i].steps) : i \in DOMAIN f}
 \* the keys of the shared template store: (call definition, metadata key)
 Keys(f) == UNION {{<<s.def, m.k>> : m \in s.md} : s \in AllSteps(f)}
 
-InitWith(k, f, n) ==
+DefaultCfg == [shared |-> FALSE, refl |-> FALSE, T |-> 0]
+InitCfg(k, f, n, c) ==
+    /\ rcfg = c
+    /\ conn = [g \in Guns |-> "none"]
+    /\ clk = [g \in Guns |-> 0]
     /\ kind = k /\ file = f /\ ninst = n
     /\ gst = [g \in Guns |-> [st |-> "none", inst |-> -1]]
     /\ sh = [g \in Guns |-> Idle]
@@ -97,19 +118,22 @@ InitWith(k, f, n) ==
     /\ nx = 0
     /\ recvlog = {}
     /\ nsample = [i \in DOMAIN f |-> [ok |-> 0, fail |-> 0]]
+InitWith(k, f, n) == InitCfg(k, f, n, DefaultCfg)
 
 (******************************* actions ***********************************)
 NewGun(g) ==
     /\ gst[g].st = "none"
     /\ gst' = [gst EXCEPT ![g].st = "new"]
-    /\ UNCHANGED <<kind, file, ninst, sh, started, done, stopped, shared, cache, nx, recvlog, nsample>>
+    /\ UNCHANGED <<kind, file, ninst, sh, started, done, stopped, shared, cache, nx, recvlog, nsample, xvars>>
 
 Bind(g, i) ==
     /\ gst[g].st = "new"
     /\ i \in 0..(ninst - 1)
     /\ \A h \in Guns : gst[h].st = "bound" => gst[h].inst # i
     /\ gst' = [gst EXCEPT ![g] = [st |-> "bound", inst |-> i]]
-    /\ UNCHANGED <<kind, file, ninst, sh, started, done, stopped, shared, cache, nx, recvlog, nsample>>
+    \* Bind takes a stub of the shared pool (prepareClientPool: makeConnect) or dials its own (makeConnect)
+    /\ conn' = [conn EXCEPT ![g] = IF rcfg.shared /\ rcfg.refl /\ SharedDialsReflect THEN "reflect" ELSE "target"]
+    /\ UNCHANGED <<kind, file, ninst, sh, started, done, stopped, shared, cache, nx, recvlog, nsample, rcfg, clk>>
 
 ShootBegin(g, idx, gid) ==
     /\ gst[g].st = "bound" /\ sh[g].ph = "idle" /\ g \notin stopped
@@ -118,37 +142,45 @@ ShootBegin(g, idx, gid) ==
     /\ \A h \in Guns : sh[h].ph # "idle" => sh[h].gid # gid \/ gid = 0
     /\ sh' = [sh EXCEPT ![g] = [idx |-> idx, step |-> 1, ph |-> "call", gid |-> gid, failed |-> FALSE]]
     /\ started' = [started EXCEPT ![idx] = @ + 1]
-    /\ UNCHANGED <<kind, file, ninst, gst, done, stopped, shared, cache, nx, recvlog, nsample>>
+    /\ clk' = [clk EXCEPT ![g] = 0]
+    /\ UNCHANGED <<kind, file, ninst, gst, done, stopped, shared, cache, nx, recvlog, nsample, rcfg, conn>>
 
 CurStep(g) == file[sh[g].idx].steps[sh[g].step]
 
 \* the call reaches the server carrying rec; newShared/newCache: effect on the template store
-SendAct(g, rec, newShared, newCache, drawn) ==
+\* srv: the server that received it -- the one the gun's stub is connected to
+SendAct(g, rec, newShared, newCache, drawn, srv) ==
     /\ sh[g].ph = "call"
     /\ CurStep(g).bad = "none"
+    /\ srv = conn[g]
+    /\ rcfg.T = 0 \/ clk[g] < rcfg.T                   \* the call starts with budget left
     /\ sh' = [sh EXCEPT ![g].ph = "sample"]
-    /\ recvlog' = IF KeepLog THEN recvlog \cup {[idx |-> sh[g].idx, step |-> sh[g].step, rec |-> rec]} ELSE recvlog
+    /\ recvlog' = IF KeepLog THEN recvlog \cup {[idx |-> sh[g].idx, step |-> sh[g].step, rec |-> rec, srv |-> srv]} ELSE recvlog
     /\ shared' = newShared /\ cache' = newCache /\ nx' = nx + drawn
-    /\ UNCHANGED <<kind, file, ninst, gst, started, done, stopped, nsample>>
+    /\ UNCHANGED <<kind, file, ninst, gst, started, done, stopped, nsample, xvars>>
 
 \* the deferred Report of the current step
 Sample(g, tag, ok) ==
-    /\ tag = CurStep(g).tag
-    /\ \/ /\ sh[g].ph = "call" /\ CurStep(g).bad # "none" /\ ~ok        \* never sent: failed sample
+    /\ tag = CurStep(g).tag \/ CurStep(g).tag = "*"     \* "*": an undecodable line has no tag of its own
+    /\ \/ /\ sh[g].ph = "call" /\ ~ok                                   \* never sent: failed sample
+          /\ \/ CurStep(g).bad # "none"
+             \/ ScenarioDeadline /\ rcfg.T > 0 /\ clk[g] >= rcfg.T      \* (negative control) deadline used up by think time
           /\ sh' = [sh EXCEPT ![g].ph = "end", ![g].failed = TRUE]
        \/ /\ sh[g].ph = "sample" /\ ok                                  \* answered by the target
           /\ sh' = [sh EXCEPT ![g] = IF sh[g].step < Len(file[sh[g].idx].steps)
                                      THEN [@ EXCEPT !.step = @ + 1, !.ph = "call"]
                                      ELSE [@ EXCEPT !.ph = "end"]]
     /\ nsample' = [nsample EXCEPT ![sh[g].idx] = IF ok THEN [@ EXCEPT !.ok = @ + 1] ELSE [@ EXCEPT !.fail = @ + 1]]
-    /\ UNCHANGED <<kind, file, ninst, gst, started, done, stopped, shared, cache, nx, recvlog>>
+    \* per-call deadline: the next call starts a fresh one; the step's sleep is not charged to anything
+    /\ clk' = [clk EXCEPT ![g] = IF ScenarioDeadline /\ ok THEN @ + CurStep(g).sleep ELSE 0]
+    /\ UNCHANGED <<kind, file, ninst, gst, started, done, stopped, shared, cache, nx, recvlog, rcfg, conn>>
 
 ShootEnd(g) ==
     /\ sh[g].ph = "end"
     /\ done' = [done EXCEPT ![sh[g].idx] = @ + 1]
     /\ stopped' = IF AbortOnBad /\ sh[g].failed THEN stopped \cup {g} ELSE stopped
     /\ sh' = [sh EXCEPT ![g] = Idle]
-    /\ UNCHANGED <<kind, file, ninst, gst, started, shared, cache, nx, recvlog, nsample>>
+    /\ UNCHANGED <<kind, file, ninst, gst, started, shared, cache, nx, recvlog, nsample, xvars>>
 
 (*********** what the modelled gun puts on the wire (design level) **********)
 Tok(n) == "t" \o ToString(n)   \* the n-th value of the variable source (opaque)
@@ -170,7 +202,7 @@ ModelSend(g) ==
                                                THEN MdVal(g, s.def, CHOOSE m \in templ : x = <<s.def, m.k>>, t)
                                                ELSE shared[x]]
                  ELSE shared
-    IN SendAct(g, rec, ns, nc, IF kind = "scn" THEN 1 ELSE 0)
+    IN SendAct(g, rec, ns, nc, IF kind = "scn" THEN 1 ELSE 0, conn[g])
 
 RECURSIVE SumTo(_, _)
 SumTo(f, n) == IF n = 0 THEN 0 ELSE f[n] + SumTo(f, n - 1)
@@ -194,6 +226,9 @@ Ownership == \A g, h \in Guns : gst[g].st = "bound" /\ gst[h].st = "bound" /\ g 
 
 \* the server saw exactly the named method, the message equal to the payload, the metadata attached
 Fidelity == \A r \in recvlog : Fits(file[r.idx].steps[r.step], r.rec)
+
+\* calls go to the target; the reflection endpoint serves reflection only
+TargetReceivesAll == \A r \in recvlog : r.srv = "target"
 
 \* a bad step is never sent; every executed step reports exactly one sample of the right outcome
 BadNeverSent == \A r \in recvlog : file[r.idx].steps[r.step].bad = "none"
